@@ -14,8 +14,14 @@ From Pygls Require Import Base.Assoc Model.Endpoint Spec.EndpointSpec Proofs.End
 Import ListNotations.
 
 (* clauses (1)-(3) for the histories of class G *)
+(* Domain of the model (Spec/EndpointSpec.v, `handler_codes_int32`): the codes that request handlers
+   raise are int32.  Outside it Model/Endpoint.v over-approximates: it answers `PError code`, whereas the
+   real endpoint sends no reply at all because lsprotocol rejects the code when the error reply is built
+   (C07 finding `wide-own-code`; C01_model_outside_domain below).  Every clause that promises an ANSWER
+   carries this hypothesis, and the generators of the correspondence run respect it. *)
 Definition C01_core (G : cfg -> list ev -> Prop) : Prop :=
-  forall c evs, no_wfail c = true -> existsb is_exit_frame evs = false -> G c evs ->
+  forall c evs, handler_codes_int32 evs = true ->
+    no_wfail c = true -> existsb is_exit_frame evs = false -> G c evs ->
     let s := run c evs in
     (* (1) pairwise distinct request ids: at most one response per id *)
     (NoDup (req_ids evs) -> forall i, replies i (out s) <= 1) /\
@@ -28,7 +34,8 @@ Definition C01_core (G : cfg -> list ev -> Prop) : Prop :=
 
 (* clause (4): from every reachable state some extension reaches quiescence *)
 Definition C01_live (G : cfg -> list ev -> Prop) : Prop :=
-  forall c evs, no_wfail c = true -> existsb is_exit_frame evs = false -> G c evs ->
+  forall c evs, handler_codes_int32 evs = true ->
+    no_wfail c = true -> existsb is_exit_frame evs = false -> G c evs ->
     exists evs', Forall (fun e => match e with Recv _ | UserSend _ => False | _ => True end) evs' /\
                  quiescent (run c (evs ++ evs')) = true.
 
@@ -42,7 +49,7 @@ Proof. intros c evs H1 H2 H3. unfold guard. rewrite H1, H2, H3. reflexivity. Qed
 
 Theorem C01_core_partial : C01_core outside_f18.
 Proof.
-  intros c evs H1 H2 H3 s. pose proof (guard_of c evs H1 H2 H3) as G. subst s. repeat split.
+  intros c evs _ H1 H2 H3 s. pose proof (guard_of c evs H1 H2 H3) as G. subst s. repeat split.
   - intros ND i. apply at_most_one_reply; assumption.
   - eapply (proj1 (reply_answers_request c evs i p G H)).
   - eapply (proj2 (reply_answers_request c evs i p G H)).
@@ -53,7 +60,7 @@ Print Assumptions C01_core_partial.
 
 Theorem C01_live_partial : C01_live outside_f18.
 Proof.
-  intros c evs H1 H2 H3. pose proof (guard_of c evs H1 H2 H3) as G.
+  intros c evs _ H1 H2 H3. pose proof (guard_of c evs H1 H2 H3) as G.
   destruct (quiescence_reachable c evs G) as [evs' [HI HQ]]. exists evs'. split; assumption.
 Qed.
 
@@ -78,6 +85,12 @@ Proof.
 Qed.
 Print Assumptions C01_safety.
 
+(* Outside the domain: the model answers a handler that raises the code 2^31 (the real endpoint does not) *)
+Example C01_model_outside_domain :
+  let evs := [Recv (FReq true (IInt 1) POk (RUser (mkB HSync (ORaiseRpc 2147483648) Propagate)))] in
+  handler_codes_int32 evs = false /\ out (run (mkCfg WBlocking HookQuiet None) evs) = [OResp (IInt 1) (PError 2147483648)].
+Proof. vm_compute. split; reflexivity. Qed.
+
 (* F18: the witness of the class the guard excludes - one thread request on an awaitable writer *)
 Definition f18_cfg : cfg := mkCfg WAwaitable HookQuiet None.
 Definition f18_evs : list ev :=
@@ -91,7 +104,7 @@ Proof. vm_compute. repeat split. Qed.
 
 Theorem C01_refuted : ~ C01_statement.
 Proof.
-  intros [H _]. destruct (H f18_cfg f18_evs eq_refl eq_refl I) as (_ & _ & H3 & _).
+  intros [H _]. destruct (H f18_cfg f18_evs eq_refl eq_refl eq_refl I) as (_ & _ & H3 & _).
   specialize (H3 eq_refl (IInt 1)). vm_compute in H3. discriminate.
 Qed.
 Print Assumptions C01_refuted.
@@ -113,6 +126,7 @@ Definition ex_evs : list ev :=
    Recv (FReq true (IInt 3) POk (RUser (mkB HSync (ORet 1) Propagate)))].
 
 Example C01_nonvacuous :
+  handler_codes_int32 ex_evs = true /\
   no_wfail ex_cfg = true /\ existsb is_exit_frame ex_evs = false /\ outside_f18 ex_cfg ex_evs /\
   NoDup (req_ids ex_evs) /\ quiescent (run ex_cfg ex_evs) = true /\
   expected ex_evs = [IInt 0; IStr []; IStr [48%N]; IInt 1; IInt 2] /\
